@@ -62,6 +62,16 @@ BUILTIN_RAISES = {
     'Enum()': {'ValueError'},
     'next': {'StopIteration'},
 }
+# Named exemptions: (external callable, exception) that cannot happen because
+# of a fact that another rule checks.  One line of reason each.
+EXEMPT = {
+    ('PingFrame.serialize', 'InvalidFrameError'):
+        'payload longer than 8 bytes: ping() refuses anything but 8 bytes '
+        '(rule C26 ARITH.ping-len) and echoed payloads come from '
+        'hyperframe\'s parser, which enforces 8',
+    ('PingFrame.serialize_body', 'InvalidFrameError'): 'as above',
+}
+
 CONSUMERS = {'list', 'tuple', 'set', 'frozenset', 'sorted', 'all', 'any',
              'sum', 'min', 'max', 'dict'}
 CONSUMER_METHODS = {'join', 'extend', 'update'}
@@ -90,6 +100,7 @@ class Raises:
         self.body_escapes = {}  # for generators: raised when consumed
         self.partial_ops = []   # all PartialOp found
         self.handled_ops = {}   # id(node) -> handler loc (caught locally)
+        self.exempt_used = set()
         self.ext_calls = []     # (fi, call node, target name)
         self.unsummarised = []  # external calls without a summary line
         self.handler_arrivals = {}   # id(handler node) -> {exc: witness}
@@ -524,6 +535,9 @@ class Raises:
             self.unsummarised.append((fi.qual, name))
             return
         for x in sorted(excs or ()):
+            if (name, x) in EXEMPT:
+                self.exempt_used.add((name, x))
+                continue
             self._op(fi, call, 'external %s' % name, x, frames, out)
 
     def _frame_ctor(self, fi, call, cls):
